@@ -71,8 +71,9 @@ _WATCHDOG_HITS = mp.Value("i", 0)
 WORKER_MEM_BYTES = int(float(os.environ.get("VERIF_WORKER_MEM_GB", "6")) * (1 << 30))
 
 
-class WatchdogTimeout(Exception):
-    """One execution ran for longer than WATCHDOG_S of real time: the code under test loops (executions take milliseconds)."""
+class WatchdogTimeout(BaseException):
+    """One execution ran for longer than WATCHDOG_S of real time: the code under test loops (executions take milliseconds).
+    A BaseException, so that neither the library's nor the harness' `except Exception` clauses swallow it."""
 
 
 def _on_alarm(signum: int, frame: Any) -> None:
@@ -458,24 +459,42 @@ def bfs_histories(step: StepFn, alphabet: Sequence[Any], depth: int, stats: Stat
 # --------------------------------------------------------------------------------------------------
 
 
+STOP_AFTER_VIOLATION_S = float(os.environ.get("VERIF_STOP_AFTER_VIOLATION_S", "90"))
+
+
 def enumerate_inputs(check: Callable[[Any], Tuple[Optional[Dict[str, Any]], str]], inputs: Iterable[Any],
                      stats: Stats, scenario: str, chunk: int = 512, total_hint: Optional[int] = None,
-                     keep_outcomes: bool = True) -> None:
-    """check(x) -> (violation-or-None, outcome_class).  Inputs are streamed through the pool in batches."""
+                     keep_outcomes: bool = True, tolerated: Sequence[str] = ()) -> None:
+    """check(x) -> (violation-or-None, outcome_class).  Inputs are streamed through the pool in batches.
+
+    Once a violation has been found (other than the `tolerated` signature classes - open known findings) the enumeration goes
+    on for at most STOP_AFTER_VIOLATION_S seconds: a change that makes the code under test slow on many inputs must not turn a
+    failing check into one that never reports.  The cut is recorded (caps, exhaustive = False)."""
+    if stats.notes.get("stopped_after_violation"):
+        return
+    first_bad: Optional[float] = None
 
     def batch(xs: List[Any]) -> Tuple[int, Dict[str, int], List[Tuple[Any, Dict[str, Any]]]]:
         out: Dict[str, int] = {}
         bad: List[Tuple[Any, Dict[str, Any]]] = []
+        t_bad: Optional[float] = None
+        done = 0
         for x in xs:
+            if t_bad is not None and time.time() - t_bad > 15:
+                break  # this batch has produced its violations; what is left of it would only cost time (see above)
+            done += 1
             try:
                 with watchdog():
                     v, oc = check(x)
             except (WatchdogTimeout, MemoryError) as exc:
                 v, oc = nonterminating(f"{scenario} input {repr(x)[:300]}", exc), "nonterminating"
             out[oc] = out.get(oc, 0) + 1
-            if v is not None and len(bad) < 20:
-                bad.append((x, v))
-        return len(xs), out, bad
+            if v is not None:
+                if t_bad is None and (v.get("signature") or {}).get("check") not in tolerated:
+                    t_bad = time.time()
+                if len(bad) < 20:
+                    bad.append((x, v))
+        return done, out, bad
 
     def batches() -> Iterator[List[Any]]:
         it = iter(inputs)
@@ -486,18 +505,26 @@ def enumerate_inputs(check: Callable[[Any], Tuple[Optional[Dict[str, Any]], str]
             yield b
 
     first = True
-    for n, out, bad in pmap_iter(batch, batches(), chunk=4):
+    for n, out, bad in pmap_iter(batch, batches(), chunk=1):
         stats.executions += n
         stats.transitions += n
         for k, v in out.items():
             stats.outcome(f"{scenario}:{k}" if keep_outcomes else scenario, v)
         for x, v in bad:
+            if first_bad is None and (v.get("signature") or {}).get("check") not in tolerated:
+                first_bad = time.time()
             if stats.room(v.get("signature")):
                 rp = dict(v.get("replay", {}), scenario=scenario)
                 if "case" not in rp:
                     rp["input"] = x
                 stats.violations.append(Violation(v["what"], rp, v.get("signature")))
         first = False
+        if first_bad is not None and time.time() - first_bad > STOP_AFTER_VIOLATION_S:
+            stats.caps.append(f"{scenario}: stopped {STOP_AFTER_VIOLATION_S:.0f} s after the first violation "
+                              f"({stats.executions} inputs evaluated so far)")
+            stats.exhaustive = False
+            stats.notes["stopped_after_violation"] = True
+            break
 
 
 def jsonable(x: Any) -> Any:
